@@ -79,7 +79,7 @@ def main(argv):
         print("unknown property", prop)
         return 2
     try:
-        build = leanbuild.ensure_built()
+        build = leanbuild.ensure_built(thorough=(tier == "thorough"))
     except Exception as ex:  # noqa: BLE001
         print("infrastructure failure in build:", ex)
         traceback.print_exc()
@@ -129,6 +129,7 @@ def main(argv):
         "theorems": {n: build.get("theorems", {}).get(n) for n in __import__("obligations").PROP_THEOREMS.get(prop, [])},
         "proof_problems": proof_problems,
         "generated_tables_changed": build.get("generated_changed"),
+        "leanchecker": {"rc": build.get("leanchecker_rc"), "seconds": build.get("leanchecker_s")} if tier == "thorough" else None,
     })
     ev = {"property_id": prop, "tier": tier, "seed": seed, "level": "proof", "coverage": cov,
           "assumptions": res.get("assumptions", []), "wall_s": round(time.time() - t0, 1), "violations": nviol,
